@@ -30,7 +30,11 @@
 // Pred (the property evaluated directly on the implementation, with the harness' own reading of the definition as the
 // specification): classes pos-named-differ, inithash-roundtrip, get-wrong, get-constant, equality-wrong,
 // equality-include-type, subtype-not-instance, ancestor-instance-of-sub, schema-admitted-rejected, new-rejected,
-// renderings-differ, fault.
+// renderings-differ, reinit-differs (the types re-created from their own InitHash() behave differently; the known finding
+// C17-type-inithash-constant-undef has its own class reinit-constant-undef, ranked last), fault.
+//
+// Implementation-only twin `@objd …` (same syntax): every definition additionally declares a member function, re-declares
+// its parent's (override => true) on odd levels, and carries a type-level annotation; same predicates, no model.
 package c17
 
 import (
@@ -255,6 +259,11 @@ type def struct {
 	ser    []string
 	hasSer bool
 	consts []attr // `constants => {name => value}`: kind c, dflt = the value, ty = the type inferred from it
+	// deco > 0 (implementation-only op `objd`): definition number deco-1 additionally declares a member function
+	// fn<number> (and re-declares its parent's with `override => true` when the number is odd) and carries a type-level
+	// annotation; neither has any bearing on construction, Get, init-hash or equality
+	deco       int
+	decoParent int
 }
 
 type action struct {
@@ -264,6 +273,16 @@ type action struct {
 	vals  []val
 	names []string
 	name  string
+}
+
+// hasUndefConstant: the definition declares a constant of an Optional type with the value undef
+func (d *def) hasUndefConstant() bool {
+	for _, a := range d.attrs {
+		if a.kind == "c" && a.ty.k == "opt" && a.dflt != nil && a.dflt.k == "u" {
+			return true
+		}
+	}
+	return false
 }
 
 func repeats(ns []string) bool {
@@ -470,6 +489,13 @@ type spec struct {
 	eqa  [][]string // per type: names that participate in equality (declared through the chain, or all settable ones)
 	wf   []bool     // per type: the definition is well-formed (the specification expects it to be accepted)
 	eit  []bool
+	deco bool // every definition also declares functions (op `objd`): a type without attributes is an INTERFACE
+}
+
+// isInterface: with functions declared (op `objd`), a type that has no attributes and whose ancestors have none is an
+// interface: pcore matches it structurally (by its functions), so whether a stranger is an instance is not judged
+func (s *spec) isInterface(t int) bool {
+	return s.deco && len(s.all[t]) == 0
 }
 
 func (s *spec) ancestorOrSelf(p, t int) bool {
@@ -735,6 +761,14 @@ func (d *def) text(name, parent string) string {
 	if d.hasSer {
 		parts = append(parts, "serialization => "+qs(d.ser))
 	}
+	if d.deco > 0 {
+		fs := []string{fmt.Sprintf("'fn%d' => Callable[[0,0],Integer]", d.deco-1)}
+		if d.decoParent >= 0 && d.deco%2 == 0 {
+			fs = append(fs, fmt.Sprintf("'fn%d' => {type => Callable[[0,0],Integer], override => true}", d.decoParent))
+		}
+		parts = append(parts, "functions => {"+strings.Join(fs, ", ")+"}",
+			fmt.Sprintf("annotations => {TagsAnnotation => {'tags' => {'level' => 'l%d'}}}", d.deco-1))
+	}
 	sb.WriteString(strings.Join(parts, ", "))
 	if parent == "" {
 		sb.WriteString("}]")
@@ -817,6 +851,18 @@ func (d *def) initHash(name string, parent px.Type) *types.Hash {
 	}
 	if d.hasSer {
 		es = append(es, types.WrapHashEntry2("serialization", strs(d.ser)))
+	}
+	if d.deco > 0 {
+		callable := types.NewCallableType(types.NewTupleType([]px.Type{}, types.NewIntegerType(0, 0)), types.DefaultIntegerType(), nil)
+		fs := []*types.HashEntry{types.WrapHashEntry2(fmt.Sprintf("fn%d", d.deco-1), callable)}
+		if d.decoParent >= 0 && d.deco%2 == 0 {
+			fs = append(fs, types.WrapHashEntry2(fmt.Sprintf("fn%d", d.decoParent), types.WrapHash([]*types.HashEntry{
+				types.WrapHashEntry2("type", callable), types.WrapHashEntry2("override", types.WrapBoolean(true))})))
+		}
+		es = append(es, types.WrapHashEntry2("functions", types.WrapHash(fs)),
+			types.WrapHashEntry(types.WrapString("annotations"), types.WrapHash([]*types.HashEntry{types.WrapHashEntry(types.TagsAnnotationType,
+				types.WrapHash([]*types.HashEntry{types.WrapHashEntry2("tags", types.WrapHash([]*types.HashEntry{
+					types.WrapHashEntry2("level", types.WrapString(fmt.Sprintf("l%d", d.deco-1)))}))}))})))
 	}
 	return types.WrapHash(es)
 }
@@ -906,6 +952,44 @@ func (r *run) define(c px.Context, s *spec, prefix string, asText bool) {
 			r.defOK = false
 			if cls == "fault" {
 				r.faults = append(r.faults, fmt.Sprintf("definition %d", i))
+			}
+			return
+		}
+		r.defRes = append(r.defRes, "ok")
+		r.types = append(r.types, t)
+	}
+}
+
+// redefine re-creates every type of `src` from its own InitHash(): the name replaced by a fresh one, the parent by the
+// re-created parent
+func (r *run) redefine(c px.Context, s *spec, src []px.Type, prefix string) {
+	r.defOK = true
+	for i, st := range src {
+		name := fmt.Sprintf("%s::T%d", prefix, i)
+		var t px.Type
+		cls := safely(func() {
+			var es []*types.HashEntry
+			sawName := false
+			st.(px.PuppetObject).InitHash().EachPair(func(k, v px.Value) {
+				switch k.String() {
+				case "name":
+					v, sawName = types.WrapString(name), true
+				case "parent":
+					v = r.types[s.defs[i].parent]
+				}
+				es = append(es, types.WrapHashEntry(k, v))
+			})
+			if !sawName {
+				panic(fmt.Errorf("the InitHash of a named type has no name"))
+			}
+			t = types.MakeObjectType(name, nil, types.WrapHash(es), false)
+			px.AddTypes(c, t)
+		})
+		if cls != "" {
+			r.defRes = append(r.defRes, cls)
+			r.defOK = false
+			if cls == "fault" {
+				r.faults = append(r.faults, fmt.Sprintf("re-definition %d", i))
 			}
 			return
 		}
@@ -1240,7 +1324,7 @@ func (r *run) predicate(c px.Context, s *spec, acts []action, hashes []*types.Ha
 				add("fault", "IsInstance(T%d, object %d): %s", p, k, cls)
 			} else if want && !got {
 				add("subtype-not-instance", "object %d of T%d is not an instance of its ancestor T%d", k, t, p)
-			} else if !want && got {
+			} else if !want && got && !s.isInterface(p) {
 				if s.ancestorOrSelf(t, p) {
 					add("ancestor-instance-of-sub", "object %d of T%d is an instance of the subtype T%d", k, t, p)
 				} else {
@@ -1374,6 +1458,10 @@ func exec(c px.Context, op string, args []sx.Sexp) core.Result {
 	if op == "msg" {
 		return execMsg(c, args)
 	}
+	deco := op == "objd"
+	if deco {
+		op = "obj"
+	}
 	if op != "obj" || len(args) != 2 || !args[0].IsList || !args[1].IsList {
 		return core.Result{Out: "bad-op", Pred: "FAIL harness-bad-op " + op}
 	}
@@ -1392,6 +1480,12 @@ func exec(c px.Context, op string, args []sx.Sexp) core.Result {
 	var s *spec
 	if cls := safely(func() { s = mkSpec(defs) }); cls != "" {
 		return core.Result{Out: "bad-op", Pred: "n/a"}
+	}
+	if deco {
+		for i := range defs {
+			defs[i].deco, defs[i].decoParent = i+1, defs[i].parent
+		}
+		s.deco = true
 	}
 	n := atomic.AddInt64(&opCounter, 1)
 	msgProblems = nil
@@ -1421,6 +1515,26 @@ func exec(c px.Context, op string, args []sx.Sexp) core.Result {
 	if h := rh.line(); h != out {
 		fails = append(fails, failure{"renderings-differ", "as text: " + out + " | as init-hash: " + h})
 	}
+	if rt.defOK {
+		// third rendering: every type re-created from its OWN InitHash() (under a new name, the parent replaced by the
+		// re-created parent); the same actions must yield the same observations
+		ri := &run{}
+		px.DoWithContext(c.Fork(), func(fc px.Context) {
+			ri.redefine(fc, s, rt.types, fmt.Sprintf("C17i%d", n))
+			if ri.defOK {
+				ri.act(fc, s, acts)
+			}
+		})
+		if h := ri.line(); h != out {
+			class := "reinit-differs"
+			if k := len(ri.defRes) - 1; !ri.defOK && ri.defRes[k] == "reported CONSTANT_REQUIRES_VALUE" && defs[k].hasUndefConstant() {
+				// known finding C17-type-inithash-constant-undef: the InitHash of a constant of an Optional type whose
+				// value is undef leaves the value out
+				class = "reinit-constant-undef"
+			}
+			fails = append(fails, failure{class, "as text: " + out + " | re-created from InitHash(): " + h})
+		}
+	}
 	if len(msgProblems) > 0 {
 		fails = append(fails, failure{"message-args", "an issue renders with an unbound argument: " + msgProblems[0]})
 	}
@@ -1442,8 +1556,8 @@ func exec(c px.Context, op string, args []sx.Sexp) core.Result {
 
 // one class is reported per op: the most specific first
 func classRank(c string) int {
-	for i, k := range []string{"fault", "schema-admitted-rejected", "renderings-differ", "new-rejected", "get-wrong", "get-constant", "pos-named-differ",
-		"inithash-roundtrip", "equality-wrong", "equality-include-type", "subtype-not-instance", "ancestor-instance-of-sub", "unrelated-instance", "message-args"} {
+	for i, k := range []string{"fault", "schema-admitted-rejected", "renderings-differ", "reinit-differs", "new-rejected", "get-wrong", "get-constant", "pos-named-differ",
+		"inithash-roundtrip", "equality-wrong", "equality-include-type", "subtype-not-instance", "ancestor-instance-of-sub", "unrelated-instance", "message-args", "reinit-constant-undef"} {
 		if c == k {
 			return i
 		}
